@@ -1,5 +1,6 @@
 import CoupeModel.Model.Metrics
 import CoupeModel.Model.Grid
+import CoupeModel.Model.MetricsFast
 import CoupeModel.Driver.Util
 
 namespace Coupe.Driver.C16
@@ -52,7 +53,128 @@ def gridLine (t : Topo) (p : List Nat) (ws : List Int) : String :=
     else toString (lambdaRows t.len (fun v => (rows v).map (·.1)) p ws)
   s!"eg={showOpt (edgeCutGeneric? t p)} lg={showOpt (lambdaGeneric? t p ws)} ce={ce} cl={cl}"
 
+/-! ## LARGE cases: inputs are described by a few parameters and expanded on both
+sides (harness and driver) by the same integer formulas; the cut functions are
+evaluated with the array-backed definitions of `Model/MetricsFast.lean`
+(proved equal to the model: `fast_eval_eq_model`). -/
+
+/-- 32-bit mixing function shared with the harness (`c16.rs: mix`). -/
+def mix (a b s : Nat) : Nat :=
+  let x := (a * 2654435761 + b * 2246822519 + s * 3266489917 + 374761393) % 4294967296
+  let y := ((x ^^^ (x >>> 15)) * 2246822519) % 4294967296
+  y ^^^ (y >>> 13)
+
+/-- partition of a large case: 0 ids ascending in `k` contiguous blocks, 1 blocks of
+4096 cycling through the ids, 2 random, 3 stripes, else blocks of 8192 ascending. -/
+def lpart (pm k n seed i : Nat) : Nat :=
+  match pm with
+  | 0 => i * k / n
+  | 1 => (i / 4096) % k
+  | 2 => mix i 1 seed % k
+  | 3 => i % k
+  | _ => min (i / 8192) (k - 1)
+
+/-- vertex weights of a large cut case. -/
+def lweight (wm seed i : Nat) : Int :=
+  match wm with
+  | 0 => 1
+  | 1 => Int.ofNat (1 + mix i 2 seed % 7)
+  | _ => Int.ofNat (1 + mix i 3 seed % 1048576)
+
+/-- row `i` of a large sparse matrix: candidates `i-s, i-1, i+1, i+s` (band of
+stride `s >= 2`); kind 0 symmetric weights, kind 1 directed (entries dropped and
+weighted per direction). -/
+def lrow (gk s em n seed i : Nat) : Row :=
+  let m := if em = 0 then 9 else 2147483648
+  let cand := (if i ≥ s then [i - s] else []) ++ (if i ≥ 1 then [i - 1] else []) ++
+    (if i + 1 < n then [i + 1] else []) ++ (if i + s < n then [i + s] else [])
+  if gk = 0 then cand.map fun j => (j, Int.ofNat (1 + mix (min i j) (max i j) seed % m))
+  else (cand.filter fun j => mix i j (seed + 7) % 4 != 0).map fun j =>
+    (j, Int.ofNat (1 + mix i j seed % m))
+
+/-- weights of a large imbalance case. -/
+def limbWeight (wm n seed i : Nat) : Int :=
+  match wm with
+  | 0 => 1
+  | 1 => Int.ofNat (mix i 2 seed % 100)
+  | 2 => Int.ofNat (1073741824 + mix i 3 seed % 2147483648)
+  | _ => Int.ofNat (2305843009213693952 / n - mix i 4 seed % 1000)
+
+def imbLine (k : Nat) (p : List Nat) (ws ts : List Int) : String :=
+  let loads := match computePartsLoad? p k ws with
+    | some l => "[" ++ joinInts l ++ "]"
+    | none => "panic(assert)"
+  let mx := match maxImbalance? k p ws with
+    | some x => toString x
+    | none => "panic(assert)"
+  let imb := match imbalanceWith floatArith k p ws with
+    | some x => toHex x.toBits.toNat
+    | none => "panic(assert)"
+  let tgt := match imbalanceTarget? ts p ws with
+    | some x => toString x
+    | none => "panic(assert)"
+  s!"loads={loads} max={mx} imb={imb} tgt={tgt}"
+
+def lgridLine (t : Topo) (pm k wm seed : Nat) : String :=
+  let n := t.len
+  let p : Array Nat := (Array.range n).map (lpart pm k n seed)
+  let ws : Array Int := (Array.range n).map (lweight wm seed)
+  let rows : Array Row := (Array.range n).map (latticeRows t)
+  let rowf := fun v => rows.getD v []
+  let eg := edgeCutTopoA t p
+  let lg := lambdaRowsA n (fun v => (t.nbrs v).map (·.1)) p ws
+  let ce := edgeCutSprsRowsA n rowf p
+  let cl := lambdaRowsA n (fun v => (rowf v).map (·.1)) p ws
+  s!"eg={eg} lg={lg} ce={ce} cl={cl}"
+
+def parseNats (toks : List String) : Option (List Nat) := toks.mapM parseNat?
+
+def handleLarge (toks : List String) : Option String :=
+  match toks with
+  | "lcsr" :: rest =>
+    match parseNats rest with
+    | some [n, gk, s, em, off, pm, k, wm, seed] =>
+      if s < 2 ∨ k = 0 ∨ n = 0 then some "bad-op" else
+      let rows : Array Row := (Array.range n).map (lrow gk s em n seed)
+      let t : Topo := ⟨n, fun v => rows.getD v []⟩
+      let p : Array Nat := (Array.range n).map (lpart pm k n seed)
+      let ws : Array Int := (Array.range n).map (lweight wm seed)
+      let eg := edgeCutTopoA t p
+      let lg := lambdaRowsA n (fun v => (t.nbrs v).map (·.1)) p ws
+      -- the rows are valid (strictly increasing, in range) and the partition covers the
+      -- vertices: the specialisation can only refuse a non-zero-based `indptr`
+      if off > 0 ∧ !Cfg.current.proper then
+        some s!"eg={eg} es=panic(slice) lg={lg} ls=panic(slice)"
+      else
+        let es := edgeCutSprsRowsA n t.nbrs p
+        some s!"eg={eg} es={es} lg={lg} ls={lg}"
+    | _ => some "bad-op"
+  | "lgrid2" :: rest =>
+    match parseNats rest with
+    | some [w, h, pm, k, wm, seed] =>
+      if w = 0 ∨ h = 0 ∨ k = 0 then some "bad-op" else some (lgridLine (topo2 w h) pm k wm seed)
+    | _ => some "bad-op"
+  | "lgrid3" :: rest =>
+    match parseNats rest with
+    | some [w, h, d, pm, k, wm, seed] =>
+      if w = 0 ∨ h = 0 ∨ d = 0 ∨ k = 0 then some "bad-op"
+      else some (lgridLine (topo3 w h d) pm k wm seed)
+    | _ => some "bad-op"
+  | "limb" :: rest =>
+    match parseNats rest with
+    | some [n, k, pm, wm, seed] =>
+      if k = 0 ∨ n = 0 then some "bad-op" else
+      let p := (List.range n).map (lpart pm k n seed)
+      let ws := (List.range n).map (limbWeight wm n seed)
+      let ts := (List.range k).map fun j => Int.ofNat (mix j 5 seed % 1000)
+      some (imbLine k p ws ts)
+    | _ => some "bad-op"
+  | _ => none
+
 def handle (toks : List String) : String :=
+  match handleLarge toks with
+  | some line => line
+  | none =>
   match toks with
   | "csr" :: rest =>
     match (do
@@ -111,20 +233,7 @@ def handle (toks : List String) : String :=
       let (ts, rest) ← takeVec parseInt? rest
       if rest.isEmpty then some (k, p, ws, ts) else none) with
     | none => "bad-op"
-    | some (k, p, ws, ts) =>
-      let loads := match computePartsLoad? p k ws with
-        | some l => "[" ++ joinInts l ++ "]"
-        | none => "panic(assert)"
-      let mx := match maxImbalance? k p ws with
-        | some x => toString x
-        | none => "panic(assert)"
-      let imb := match imbalanceWith floatArith k p ws with
-        | some x => toHex x.toBits.toNat
-        | none => "panic(assert)"
-      let tgt := match imbalanceTarget? ts p ws with
-        | some x => toString x
-        | none => "panic(assert)"
-      s!"loads={loads} max={mx} imb={imb} tgt={tgt}"
+    | some (k, p, ws, ts) => imbLine k p ws ts
   | _ => "bad-op"
 
 end Coupe.Driver.C16
